@@ -85,7 +85,7 @@ CHECKS = {
         ref="5 C18", note="Numerical accuracy of the floating-point primitives is not modelled (order and equality of exact bit patterns only); positive finite samples."),
     "C14": dict(
         technique="TLA+ contract of one intercepted operation (spec/Grpc.tla); TLC enumerates the full product of inputs (GrpcMC) and every case is executed on the real interceptors with recording doubles; recorded random operation sequences and full-duplex stream scenarios validated by TLC (GrpcTrace); implementation-shaped model of two operations in flight on one stream (spec/GrpcStream.tla)",
-        text="All 1 152 combinations of operation (unary server / unary client / RecvMsg / SendMsg) x grant x inner error x classifier answer x limit-exceeded code x default-or-custom classifiers x default-or-custom limit-exceeded classifier x name/tag options absent / first / last are executed against the real interceptors with recording limiter/listener doubles and fake handler, invoker and ServerStream; the observation (limiter consulted, wrapped call run, listener method on which token, returned value / status code) must equal the contract's. 3k-20k random operations are validated in the other direction. Full duplex: one RecvMsg and one SendMsg overlapping on the same wrapped stream in four orders of entering and leaving the transport x every grant / error / classification / option combination (2 560 operations), each operation's own observation validated against the same contract; the design-level model spec/GrpcStream.tla (token in a local variable: exactly once; token parked in a per-stream field: violated) is model-checked next to it.",
+        text="All 3 456 combinations of operation (unary server / unary client / RecvMsg / SendMsg) x grant x inner error x classifier answer x limit-exceeded code x default-or-custom classifiers x default-or-custom limit-exceeded classifier x name/tag options absent / first / last x context live / cancelled during the call / expired are executed against the real interceptors with recording limiter/listener doubles and fake handler, invoker and ServerStream; the observation (limiter consulted, wrapped call run, listener method on which token, returned value / status code) must equal the contract's. 3k-20k random operations are validated in the other direction. Full duplex: one RecvMsg and one SendMsg overlapping on the same wrapped stream in four orders of entering and leaving the transport x every grant / error / classification / option combination (2 560 operations), each operation's own observation validated against the same contract; the design-level model spec/GrpcStream.tla (token in a local variable: exactly once; token parked in a per-stream field: violated) is model-checked next to it.",
         ref="5 C14", note="Interceptors are stateless, so sequences are independent operations; no network; the stream classifiers are taken as named (RecvMsg -> server stream classifier, SendMsg -> client stream classifier)."),
     "C20": dict(
         technique="implementation-shaped TLA+ model of the registries' poller life cycle (spec/Registry.tla) model-checked by TLC with the as-delivered and flag-only variants as negative configurations; recorded Start/Stop/Register/advance/sample sequences of both bundled registries on a virtual clock validated by TLC against spec/RegistryTrace.tla; emission checked through the Limiter contract (in-flight sample at the admission decision, limit gauge)",
